@@ -119,6 +119,12 @@ def work(task):
     global DEVICE
     if task[0] == 'catalog':
         return work_catalog(task)
+    if task[0] == 'pages':
+        # chains through 33..131 scattered 16K-word pages (the native page table grows, cache slots are contended): the family of C07
+        import checks.C07 as C07
+        st, hist, res, sample = C07.work_pages(task, prop=PROP, matchers=MATCHERS)
+        stats = {'images': 1, 'cases': 1, 'engine_runs': st['engine_runs'], 'skipped_horizon': 0, 'capped_reads': 0, 'nontrivial': 1}
+        return stats, {'many_pages_programs': 1}, res, sample
     from fjv.enginecheck import answer_scripts, features, HORIZON
     from fjv.engines import make_device_class
     from fjv.ref import machine as R1
@@ -285,6 +291,10 @@ def main():
         n = len(catalog_rows())
         tasks = [('catalog', args.tier, i, None) for i in range(n)] + ([('catalog', args.tier, i, 32) for i in range(n)] if args.tier == 'thorough' else []) + \
             (tasks if not args.only else [])
+    if not args.only or args.only == 'pages':
+        import checks.C07 as C07
+        tasks = (tasks if not args.only else []) + [('pages', args.tier, w, name, mul) for w in (32, 64) for name in C07.page_sets(w)
+                                                    for mul in ((1, 11) if args.tier != 'thorough' else (1, 7, 11, 13))]
     total = {}
     hist = {}
     samples = []
